@@ -7,20 +7,28 @@ pub use ::std::{convert, marker, mem, ops};
 
 pub mod sync {
     pub use ::std::sync::Arc;
+    #[cfg(feature = "no-unsafe")]
+    pub use ::std::sync::{Mutex, MutexGuard};
 
     // Sequential stand-in for std::sync::Mutex: in a sequential execution a lock is always free; taking it while it
     // is held is a self-deadlock and is reported.  (std's futex mutex makes CBMC explore the contended spin path.)
+    #[cfg(not(feature = "no-unsafe"))]
     pub struct Mutex<T> {
         held: ::std::cell::Cell<bool>,
         v: ::std::cell::UnsafeCell<T>,
     }
+    #[cfg(not(feature = "no-unsafe"))]
     unsafe impl<T: Send> Sync for Mutex<T> {}
+    #[cfg(not(feature = "no-unsafe"))]
     unsafe impl<T: Send> Send for Mutex<T> {}
+    #[cfg(not(feature = "no-unsafe"))]
     #[derive(Debug)]
     pub struct Poisoned;
+    #[cfg(not(feature = "no-unsafe"))]
     pub struct MutexGuard<'a, T> {
         m: &'a Mutex<T>,
     }
+    #[cfg(not(feature = "no-unsafe"))]
     impl<T> Mutex<T> {
         pub const fn new(v: T) -> Self {
             Self { held: ::std::cell::Cell::new(false), v: ::std::cell::UnsafeCell::new(v) }
@@ -39,17 +47,20 @@ pub mod sync {
             }
         }
     }
+    #[cfg(not(feature = "no-unsafe"))]
     impl<'a, T> ::std::ops::Deref for MutexGuard<'a, T> {
         type Target = T;
         fn deref(&self) -> &T {
             unsafe { &*self.m.v.get() }
         }
     }
+    #[cfg(not(feature = "no-unsafe"))]
     impl<'a, T> ::std::ops::DerefMut for MutexGuard<'a, T> {
         fn deref_mut(&mut self) -> &mut T {
             unsafe { &mut *self.m.v.get() }
         }
     }
+    #[cfg(not(feature = "no-unsafe"))]
     impl<'a, T> Drop for MutexGuard<'a, T> {
         fn drop(&mut self) {
             self.m.held.set(false);
@@ -57,7 +68,6 @@ pub mod sync {
     }
     pub mod atomic {
         pub use ::std::sync::atomic::Ordering;
-        use ::std::cell::UnsafeCell;
 
         pub const OP_OR: u8 = 1;
         pub const OP_SWAP: u8 = 2;
@@ -83,6 +93,7 @@ pub mod sync {
             pub script: [usize; EVMAX], // value returned by the k-th atomic operation when scripted
             pub k: usize,
         }
+        #[cfg(not(feature = "no-unsafe"))]
         pub static mut TRACE: Trace = Trace {
             n: 0,
             ev: [Event { addr: 0, op: 0, arg: 0, ord: 0, ret: 0 }; EVMAX],
@@ -90,6 +101,7 @@ pub mod sync {
             script: [0; EVMAX],
             k: 0,
         };
+        #[cfg(not(feature = "no-unsafe"))]
         #[allow(static_mut_refs)]
         pub fn trace() -> &'static mut Trace {
             unsafe { &mut TRACE }
@@ -103,6 +115,7 @@ pub mod sync {
                 _ => 4,
             }
         }
+        #[cfg(not(feature = "no-unsafe"))]
         pub fn log_event(addr: usize, op: u8, arg: usize, ord: u8, ret: usize) {
             let t = trace();
             if t.n < EVMAX {
@@ -112,10 +125,8 @@ pub mod sync {
         }
 
         pub struct AtomicUsize {
-            v: UnsafeCell<usize>,
+            v: ::std::sync::atomic::AtomicUsize,
         }
-        unsafe impl Sync for AtomicUsize {}
-        unsafe impl Send for AtomicUsize {}
         impl Default for AtomicUsize {
             fn default() -> Self {
                 Self::new(0)
@@ -123,29 +134,29 @@ pub mod sync {
         }
         impl AtomicUsize {
             pub const fn new(v: usize) -> Self {
-                Self { v: UnsafeCell::new(v) }
+                Self { v: ::std::sync::atomic::AtomicUsize::new(v) }
             }
             fn addr(&self) -> usize {
                 self as *const Self as usize
             }
             // Extraction builds (cfg uazu_vstd_scripted, set by the driver for the waker extraction harnesses only):
-            // every operation is logged and returns the next scripted value.  All other builds: plain sequential
-            // semantics, nothing logged, no global state read (reading a mode flag from a static would make every
-            // returned value symbolic for CBMC).
+            // every operation is logged and returns the next scripted value.  All other builds: the real operation,
+            // nothing logged, no global state read (reading a mode flag from a static would make every returned
+            // value symbolic for CBMC).
             #[cfg(uazu_vstd_scripted)]
             fn rmw(&self, op: u8, arg: usize, ord: Ordering, f: impl FnOnce(usize) -> usize) -> usize {
                 let t = trace();
                 let k = t.k;
                 t.k += 1;
                 let old = if k < EVMAX { t.script[k] } else { 0 };
-                unsafe { *self.v.get() = f(old) };
+                self.v.store(f(old), Ordering::SeqCst);
                 log_event(self.addr(), op, arg, ord_code(ord), old);
                 old
             }
             #[cfg(not(uazu_vstd_scripted))]
             fn rmw(&self, _op: u8, _arg: usize, _ord: Ordering, f: impl FnOnce(usize) -> usize) -> usize {
-                let old = unsafe { *self.v.get() };
-                unsafe { *self.v.get() = f(old) };
+                let old = self.v.load(Ordering::SeqCst);
+                self.v.store(f(old), Ordering::SeqCst);
                 old
             }
             pub fn fetch_or(&self, val: usize, ord: Ordering) -> usize {
@@ -178,13 +189,6 @@ pub mod sync {
             }
             pub fn into_inner(self) -> usize {
                 self.v.into_inner()
-            }
-            // harness access (not part of std's API)
-            pub fn peek(&self) -> usize {
-                unsafe { *self.v.get() }
-            }
-            pub fn poke(&self, v: usize) {
-                unsafe { *self.v.get() = v }
             }
         }
     }
